@@ -182,7 +182,7 @@ func (a *genericAuthenticator) getSubjectInformation(ctx heimdall.Context, authD
 	)
 
 	if a.ttl > 0 {
-		cacheKey = a.calculateCacheKey(authData)
+		cacheKey = a.calculateCacheKey(ctx, authData)
 		if entry, err := cch.Get(ctx.AppContext(), cacheKey); err == nil {
 			// the entry may have been stored by an authenticator which does not assert the session
 			// lifespan (the key does not tell): it is reused only if it satisfies the checks in force here
@@ -370,11 +370,32 @@ func (a *genericAuthenticator) getCacheTTL(sessionLifespan *SessionLifespan) tim
 	return a.ttl
 }
 
-func (a *genericAuthenticator) calculateCacheKey(reference string) string {
+// forwardedHash covers the given names of headers, respectively cookies, and the values they have in the request.
+func forwardedHash(names []string, valueOf func(name string) string) []byte {
+	digest := sha256.New()
+
+	for _, name := range names {
+		digest.Write(stringx.ToBytes(name))
+		digest.Write(stringx.ToBytes(valueOf(name)))
+	}
+
+	return digest.Sum(nil)
+}
+
+func (a *genericAuthenticator) calculateCacheKey(ctx heimdall.Context, reference string) string {
 	digest := sha256.New()
 	digest.Write(a.e.Hash())
 	digest.Write(stringx.ToBytes(reference))
 	digest.Write(ttlHash(&a.ttl))
+
+	// everything else what is sent to the endpoint: the forwarded headers and cookies with their values
+	// and the payload (a function of its template and the authentication data)
+	digest.Write(forwardedHash(a.fwdHeaders, func(name string) string { return ctx.Request().Header(name) }))
+	digest.Write(forwardedHash(a.fwdCookies, func(name string) string { return ctx.Request().Cookie(name) }))
+
+	if a.payload != nil {
+		digest.Write(a.payload.Hash())
+	}
 
 	return hex.EncodeToString(digest.Sum(nil))
 }
